@@ -1,8 +1,92 @@
-import DendroModel.Basic.Tree
-open DendroModel
+import DendroModel.Model.C11
+open DendroModel DendroModel.C11
+
+/-- `=` empty list, else comma-separated; `-` entries are `none` -/
+def parseONats (s : String) : Option (List (Option Nat)) :=
+  if s == "=" then some []
+  else (s.splitOn ",").mapM (fun x => if x == "-" then some none else x.toNat?.map some)
+
+def parseNats (s : String) : Option (List Nat) :=
+  if s == "=" then some [] else (s.splitOn ",").mapM String.toNat?
+
+def parseONat (s : String) : Option (Option Nat) :=
+  if s == "-" then some none else s.toNat?.map some
+
+def parseLabels (s : String) : Option (List String) :=
+  if s == "=" then some []
+  else (s.splitOn ",").mapM (fun x => match decodeStr x with | some (some l) => some l | _ => none)
+
+def parseDocs (s : String) : Option (List (List String)) :=
+  if s == "=" then some [] else (s.splitOn "/").mapM parseLabels
+
+def parseStrat (s : String) : Option Strat :=
+  if s == "migrate" then some .migrate else if s == "add" then some .add else none
+
+def parseBool (s : String) : Option Bool :=
+  if s == "1" then some true else if s == "0" then some false else none
+
+def parseSrc (kind arg : String) : Option Src :=
+  if kind == "L" then arg.toNat?.map Src.list
+  else if kind == "t" then (parseNats arg).map Src.trees
+  else none
+
+def parseOp (ws : List String) : Option Op :=
+  match ws with
+  | ["ns", cs, labs] => do some (.ns (← parseBool cs) (← parseLabels labs))
+  | ["tree", n, taxa] => do some (.tree (← n.toNat?) (← parseONats taxa))
+  | ["tlist", n] => do some (.tlist (← parseONat n))
+  | ["mat", n, idx] => do some (.mat (← n.toNat?) (← parseNats idx))
+  | ["ds"] => some .ds
+  | ["append", l, t, st] => do some (.append (← l.toNat?) (← t.toNat?) (← parseStrat st))
+  | ["insert", l, i, t, st] => do some (.insert (← l.toNat?) (← i.toNat?) (← t.toNat?) (← parseStrat st))
+  | ["setitem", l, i, t] => do some (.setitem (← l.toNat?) (← i.toNat?) (← t.toNat?))
+  | ["setslice", l, a, b, kind, arg] => do some (.setslice (← l.toNat?) (← a.toNat?) (← b.toNat?) (← parseSrc kind arg))
+  | ["extend", l, kind, arg] => do some (.extend (← l.toNat?) (← parseSrc kind arg))
+  | ["iadd", l, kind, arg] => do some (.extend (← l.toNat?) (← parseSrc kind arg))
+  | ["add", l, kind, arg] => do some (.add (← l.toNat?) (← parseSrc kind arg))
+  | ["read", l, docs] => do some (.read (← l.toNat?) (← parseDocs docs))
+  | ["newtree", l, t] => do some (.newtree (← l.toNat?) (← parseONat t))
+  | ["getslice", l, a, b] => do some (.getslice (← l.toNat?) (← a.toNat?) (← b.toNat?))
+  | ["pop", l, i] => do some (.pop (← l.toNat?) (← i.toNat?))
+  | ["remove", l, t] => do some (.remove (← l.toNat?) (← t.toNat?))
+  | ["lclone", l, n] => do some (.lclone (← l.toNat?) (← parseONat n))
+  | ["tclone", t, n] => do some (.tclone (← t.toNat?) (← parseONat n))
+  | ["mclone", m, n] => do some (.mclone (← m.toNat?) (← parseONat n))
+  | ["tmig", t, n, u] => do some (.tmig (← t.toNat?) (← n.toNat?) (← parseBool u))
+  | ["trec", t, u] => do some (.trec (← t.toNat?) (← parseBool u))
+  | ["lmig", l, n, u] => do some (.lmig (← l.toNat?) (← n.toNat?) (← parseBool u))
+  | ["lrec", l, u] => do some (.lrec (← l.toNat?) (← parseBool u))
+  | ["mmig", m, n, u] => do some (.mmig (← m.toNat?) (← n.toNat?) (← parseBool u))
+  | ["mrec", m, u] => do some (.mrec (← m.toNat?) (← parseBool u))
+  | ["mset", m, n, i] => do some (.mset (← m.toNat?) (← n.toNat?) (← i.toNat?))
+  | ["mnew", m, n, i] => do some (.mnew (← m.toNat?) (← n.toNat?) (← i.toNat?))
+  | ["dsadd", d, "n", i] => do some (.dsaddN (← d.toNat?) (← i.toNat?))
+  | ["dsadd", d, "l", i] => do some (.dsaddL (← d.toNat?) (← i.toNat?))
+  | ["dsadd", d, "m", i] => do some (.dsaddM (← d.toNat?) (← i.toNat?))
+  | ["dsnewlist", d] => do some (.dsnewlist (← d.toNat?))
+  | ["dsnewmat", d] => do some (.dsnewmat (← d.toNat?))
+  | ["dsnewns", d] => do some (.dsnewns (← d.toNat?))
+  | ["dsattach", d, n] => do some (.dsattach (← d.toNat?) (← n.toNat?))
+  | ["dsdetach", d] => do some (.dsdetach (← d.toNat?))
+  | ["dsunify", d, n] => do some (.dsunify (← d.toNat?) (← parseONat n))
+  | ["dsread", d, taxa, rows, trees] => do
+    let rows ← if rows == "-" then some none else (parseLabels rows).map some
+    let trees ← if trees == "-" then some none else (parseDocs trees).map some
+    some (.dsread (← d.toNat?) (← parseLabels taxa) rows trees)
+  | _ => none
+
+/-- split the token list at `;` -/
+def splitOps : List String → List String → List (List String)
+  | [], acc => if acc.isEmpty then [] else [acc.reverse]
+  | ";" :: rest, acc => acc.reverse :: splitOps rest []
+  | w :: rest, acc => splitOps rest (w :: acc)
 
 def handle (ws : List String) : String :=
   match ws with
+  | "hist" :: rest =>
+    match (splitOps rest []).mapM parseOp with
+    | some ops => " | ".intercalate (trace init ops)
+    | none => "bad-op"
   | _ => "bad-op"
 
 def main : IO Unit := do driverLoop (← IO.getStdin) handle
